@@ -44,6 +44,7 @@ var All = map[string]func(*Ctx){
 		c.totpValidateDefaults("C02.totp-window")
 		c.perInstanceWiring("C02.per-instance")
 		c.pendingPIDVerbatim("C02.pending-verbatim")
+		c.totpNormalised("C02.totp-normalised")
 		c.compareWhole("C02.compare-whole", exactPkgs("ab/otp/twofactor/sms2fa", "ab/otp/twofactor/totp2fa"))
 	}),
 	"C03": seq(C03, func(c *Ctx) {
@@ -135,6 +136,7 @@ var All = map[string]func(*Ctx){
 		c.compareWhole("C12.compare-whole", exactPkgs("ab/otp", "ab/otp/twofactor/sms2fa", "ab/otp/twofactor/totp2fa"))
 		c.totpValidateDefaults("C12.totp-window")
 		c.issuanceGated("C12.issued-only", exactPkgs("ab/otp", "ab/otp/twofactor/sms2fa", "ab/otp/twofactor/totp2fa"))
+		c.totpNormalised("C12.totp-normalised")
 	}),
 	"C13": seq(C13, (*Ctx).c12Recovery, func(c *Ctx) {
 		c.localizeFallback("C13.status-text")
